@@ -189,7 +189,7 @@ struct endpoint {
 	int wr_api_bias, write_in_cb;
 	size_t max_chunk;
 	/* watermark monitors (top buffers) */
-	size_t r_max_win, r_low_min_win; int r_expect_cb;
+	size_t r_max_win, r_low_min_win; int r_expect_cb, r_high_seen_win;
 	size_t w_min_win, w_low_max_win; int w_expect_cb;
 	int in_rflush;
 	int wr_reenabled, rd_reenabled, rwm_changed, rflushed;   /* enable after disable happened and nothing moved since */
@@ -702,11 +702,13 @@ static void app_readcb(struct bufferevent *bev, void *arg)
 		vh_viol(mkkey(s, "readcb-below-low"), "%s: read callback with %zu bytes buffered; the input never held more than %zu since the previous read callback but the low watermark was >= %zu",
 			side_name(ep), len, ep->r_max_win, ep->r_low_min_win);
 		s->ended = 1;
-	} else if (!top_deferred(ep) && !bev->wm_read.high && len < low) {
+	} else if (!top_deferred(ep) && !bev->wm_read.high && !ep->r_high_seen_win && len < low) {
+		/* (with a high watermark in the window bufferevent_inbuf_wm_check may have scheduled this
+		 * callback, deferred, under the gate that applied then: the window rule above covers that) */
 		vh_viol(mkkey(s, "readcb-below-low"), "%s: non-deferred read callback entered with %zu bytes < low watermark %zu", side_name(ep), len, low);
 		s->ended = 1;
 	}
-	ep->r_expect_cb = 0; ep->r_max_win = len; ep->r_low_min_win = low;
+	ep->r_expect_cb = 0; ep->r_max_win = len; ep->r_low_min_win = low; ep->r_high_seen_win = bev->wm_read.high != 0;
 	switch (ep->rp_mode) {
 	case RP_ALL: consume(ep, (size_t)-1); break;
 	case RP_SOME: if (vh_chance(r, 5, 6)) consume(ep, 1 + (size_t)vh_below(r, len + 1)); break;
@@ -1061,6 +1063,8 @@ static int build_stack(struct session *s, struct endpoint *ep, struct buffereven
 }
 static void set_rwm(struct endpoint *ep, struct bufferevent *bev, size_t low, size_t high)
 {
+	VLOG("  [%s] setwatermark read %zu/%zu on layer %s (input %zu)", side_name(ep), low, high, bev == ep->top ? "top" : "underlying", evbuffer_get_length(bev->input));
+	if (bev == ep->top && (bev->wm_read.high || high)) ep->r_high_seen_win = 1;
 	bufferevent_setwatermark(bev, EV_READ, low, high);
 	if (bev == ep->top && low < ep->r_low_min_win) ep->r_low_min_win = low;
 	if (bev == ep->top) ep->r_expect_cb = 0;   /* the gate changed: an earlier trigger decision may no longer apply */
@@ -1543,7 +1547,7 @@ static void traffic(struct session *s)
 				else act_flush(ep, EV_READ, vh_chance(r, 1, 2) ? BEV_NORMAL : BEV_FLUSH);
 			} else if (x < 86) {
 				size_t l = evbuffer_get_length(ep->top->input);
-				if (l) { consume(ep, 1 + (size_t)vh_below(r, l)); vh_stat("consume_outside_cb"); }
+				if (l) { VLOG("  [%s] consume outside callbacks (input %zu)", side_name(ep), l); consume(ep, 1 + (size_t)vh_below(r, l)); vh_stat("consume_outside_cb"); }
 			} else if (x < 95 && wm_mode) act_setwm(s);
 		}
 		y = (int)vh_below(r, 10);
